@@ -123,7 +123,7 @@ structure InputM where
   name : Str
   address : Str
 
-/-- name: single-spaced words of atom characters and dots; address: a dot-atom with one `@` -/
+/-- name: single-spaced words of atom characters and dots; address: a dot-atom, or two dot-atoms around one `@` -/
 def atomChar (c : Char) : Bool :=
   c.toNat < 128 && (isAsciiAlnum c || "!#$%&'*+-/=?^_`{|}~".toList.contains c)
 
@@ -131,7 +131,7 @@ def wfM (i : InputM) : Bool :=
   let words := splitChar ' ' i.name
   !i.name.isEmpty && words.all (fun w => !w.isEmpty && w.all (fun c => atomChar c || c == '.')) &&
   (let parts := splitChar '@' i.address
-   parts.length == 2 && parts.all fun p =>
+   (parts.length == 1 || parts.length == 2) && parts.all fun p =>
      !p.isEmpty && (splitChar '.' p).all fun a => !a.isEmpty && a.all atomChar)
 
 abbrev ObsM := Option (Str × Option Str × Str)   -- name, email_address, dumps()
